@@ -21,7 +21,9 @@ RULE = ('M-broker rule-based machine with every valid rule plus invalid requests
         '>= 3 different refusal kinds in one history, at least one after a fill while an order is pending.')
 ASSUMPTIONS = [
     'the portfolio\'s internal clock is not part of the statement\'s list and is not compared',
-    'broker clock updates never go back in time (not one of the anchored refusals)',
+    'valid broker clock updates never go back in time; the one backwards update generated (stale_update) is earlier than '
+    'the clock of every position-holding portfolio, so its first re-mark is refused; the broker\'s own clock, which '
+    'update() assigns before validating and the statement does not list, is put back by the harness',
     'histories of up to 40/60 steps',
 ]
 
